@@ -126,7 +126,7 @@ impl Cfg {
 }
 
 pub const RESERVED_AXIS: [u32; 13] = [0, 1, 3, 5, 7, 8, 9, 15, 16, 63, 64, 255, 4096];
-pub const MINSEG_AXIS: [u32; 5] = [1, 8, 20, 48, 200];
+pub const MINSEG_AXIS: [u32; 6] = [1, 8, 20, 48, 200, 0];
 pub const ALIGN_AXIS: [usize; 3] = [8, 16, 64];
 
 /// Sample a configuration; `i` forces each axis value to appear (covering schedule).
